@@ -213,7 +213,22 @@ func mutateBytes(r *core.Rand, data []byte, other []byte) ([]byte, string) {
 			return d, fmt.Sprintf("caseflip@%d", pos)
 		}
 		a := locs[r.Intn(len(locs))]
-		switch r.Intn(6) {
+		switch r.Intn(8) {
+		case 6: // tweak a number: 0, negative-looking, huge
+			nums := reDigits.FindAllIndex(d, -1)
+			if len(nums) > 0 {
+				n := nums[r.Intn(len(nums))]
+				w := []string{"0", "00", "99999999999999999999", "4294967296", "9223372036854775808", "-1"}[r.Intn(6)]
+				out := append(append(append([]byte{}, d[:n[0]]...), w...), d[n[1]:]...)
+				return out, fmt.Sprintf("number@%d=%s", n[0], w)
+			}
+			fallthrough
+		case 7: // append a qualifier or action to the end of a line
+			ls := bytes.Split(d, []byte("\n"))
+			k := r.Intn(len(ls))
+			w := []string{" @left(0)", " @right(0)", " @left(1)", " @left(99999999999999999999)", " @right(2)", " @discard", " @pop_mode", " @push_mode(Nope)", " @emit(NOPE)", " @push_mode()", " \\", " |", " @error"}[r.Intn(13)]
+			ls[k] = append(append([]byte{}, ls[k]...), w...)
+			return bytes.Join(ls, []byte("\n")), fmt.Sprintf("lineappend@%d=%q", k, w)
 		case 0: // replace a token by another token of the file
 			b := locs[r.Intn(len(locs))]
 			out := append(append(append([]byte{}, d[:a[0]]...), d[b[0]:b[1]]...), d[a[1]:]...)
@@ -260,6 +275,13 @@ func (st *c12State) execOne(run *c12Run) (c12Outcome, error) {
 	dir := filepath.Join(base, "proj")
 	os.RemoveAll(base)
 	defer os.RemoveAll(base)
+	if run.Env == "outside-module" {
+		// a project directory that is not inside any Go module
+		base = filepath.Join(st.x.T.Base, "outside", "c12-"+run.ID)
+		dir = filepath.Join(base, "proj")
+		os.RemoveAll(base)
+		defer os.RemoveAll(base)
+	}
 	switch run.Env {
 	case "dir-missing":
 		os.MkdirAll(base, 0o755)
@@ -497,6 +519,8 @@ func CheckC12(tier string, seed uint64, rep *core.Reporter) (*core.Evidence, err
 			}
 			doRun(&c12Run{ID: fmt.Sprintf("%d-iL", wi), Files: clone(), Kind: "io-fault",
 				Op: Op{Kind: "FailGen", Binary: "sim", Map: randMap(r), Cwd: "dot", Fault: &Fault{Fn: "packages.Load", Kind: "error"}}})
+			doRun(&c12Run{ID: fmt.Sprintf("%d-iE", wi), Files: clone(), Kind: "io-fault",
+				Op: Op{Kind: "FailGen", Binary: "sim", Map: randMap(r), Cwd: "dot", Fault: &Fault{Fn: "packages.Load", Kind: "empty"}}})
 			// Go package defects
 			defects := []string{"no-go-file", "empty-go-file", "ill-typed", "syntax-error", "no-token", "no-parser-struct", "two-parser-structs",
 				"generic-parser-struct", "arity-mismatch", "return-mismatch", "two-results", "orphan-method", "missing-method"}
@@ -515,7 +539,7 @@ func CheckC12(tier string, seed uint64, rep *core.Reporter) (*core.Evidence, err
 					Op: Op{Kind: "Gen", Binary: bin, Map: randMap(r), Cwd: cwdModes[r.Intn(5)]}})
 			}
 			// environment
-			envs := []string{"dir-missing", "dir-is-file", "lox-is-dir", "gofile-is-dir", "genfile-is-dir"}
+			envs := []string{"dir-missing", "dir-is-file", "lox-is-dir", "gofile-is-dir", "genfile-is-dir", "outside-module", "outside-module"}
 			for _, ei := range permN(r, len(envs))[:2] {
 				doRun(&c12Run{ID: fmt.Sprintf("%d-e%s", wi, envs[ei]), Files: clone(), Kind: "env", Env: envs[ei],
 					Op: Op{Kind: "Gen", Binary: []string{"sim", "plain"}[r.Intn(2)], Map: randMap(r), Cwd: cwdModes[r.Intn(5)]}})
